@@ -197,12 +197,20 @@ def rule_names(ctx):
         ctx.add("NAMES", "chain:%s" % ch["name"], ok, ctx.site(b, ch["root"]),
                 "after all formulas are added: rename_conflicting_symbols, then create_unique_formula_names (%s)" % ms)
     un = fx.fn("Problem::create_unique_formula_names")
-    v = sym.Eval(fx, inline_depth=0).function(un)
-    fm = [x for x in sym.subterms(v) if isinstance(x, tuple) and x[:1] == ("format",)]
-    E = ("each", ("call", "Iterator::enumerate", (("place", "self.formulas"),)))
-    ok = len(fm) == 1 and fm[0][1] == "formula_{i}_{}" and fm[0][2][0] == ("proj", E, (("tuple", "0"),)) and fm[0][2][1] == ("fieldof", ("proj", E, (("tuple", "1"),)), "name")
+    from .. import ftpl
+    v = ftpl.canon_iter(sym.Eval(fx, inline_depth=0).function(un))
+    fm = sorted({x for x in sym.subterms(v) if isinstance(x, tuple) and x[:1] == ("format",)}, key=repr)
+    FS = ("place", "self.formulas")
+    IDX, ELEM = ("idx", FS), ("at", FS)
+
+    def field(f):
+        return {("fieldof", ELEM, f), ("place", "self.formulas.%s" % f), ("proj", ELEM, (("AnnotatedFormula", f),))}
+    tmpl = re.sub(r"\{\w*\}", "{}", fm[0][1]) if len(fm) == 1 else None
+    ok = tmpl == "formula_{}_{}" and fm[0][2][0] == IDX and fm[0][2][1] in field("name")
     ctx.add("NAMES", "unique", ok, ctx.site(un), "names become formula_<position>_<old name>: the position makes them pairwise different")
-    ctx.add("NAMES", "unique:keeps-role-formula", "('fieldof', ('proj', %r, (('tuple', '1'),)), 'role')" % (E,) in repr(v) and "'formula')" in repr(v), ctx.site(un), "role and formula are carried over unchanged")
+    rv = repr(v)
+    keeps = all(any(repr(x) in rv for x in field(f)) or ("('..', %r)" % (ELEM,)) in rv for f in ("role", "formula"))
+    ctx.add("NAMES", "unique:keeps-role-formula", keeps, ctx.site(un), "role and formula are carried over unchanged")
     aa = fx.fn("Problem::add_annotated_formulas")
     p = sym.Eval(fx, inline_depth=0)
     v = p.function(aa)
